@@ -13,6 +13,8 @@ PROPERTY = "C08"
 RULE = ("every concatenation of <= L pieces from the piece alphabet (prefix tree) x 4 flag combinations, and every "
         "member of each parametric family; non-trivial = distinct (flags, outcome class, output) triples")
 ASSUMPTIONS = [
+    "every worker first decodes every piece under the table {'?': 12} and then installs the default table, so totality is "
+    "checked in a library with warm caches filled under a different table (C11 explores histories systematically)",
     "non-termination is observed as 'no result within a watchdog of 20 s + 1 s per 100 input characters'",
     "the constraint state is observed through get_semantic_constraints() after every call and through the "
     "module-state fingerprint once per shard",
@@ -20,7 +22,7 @@ ASSUMPTIONS = [
 
 PIECES = ["[C]", "[=O]", "[Branch1]", "[Ring1]", "[epsilon]", "[nop]", ".",
           "[", "]", "[[", "[C", "C]", "..", " ", "\n", "[]", "[.]", "[nop", "x", "[Branch4]", "[C+0]", "[CH10]",
-          "[٣C]", "[C@@@]", "[Branch1_1]", "[Expl=Ring1]", "[C@@Hexpl]", "expl]", "_1]", "[²Cexpl]"]
+          "[٣C]", "[C@@@]", "[Branch1_1]", "[Expl=Ring1]", "[C@@Hexpl]", "expl]", "_1]", "[²Cexpl]", "[OH3]", "[CH5]"]
 PIECES2 = ["[N]", "[#Branch2]", "[=Ring3]", "[-/Ring1]", "[/C]", "[", "]", "[expl]", "[=expl]", "[Hexpl]", "ch1]",
            "ng1]", "[epsilon", "eps", "[\x00]", "[\ud800]", "[C-٣]", "[999999999999999999999C]", "[CH٣]",
            "[C+999999999999999999999]", "\t", "[=]", "[#]", "[/]"]
@@ -92,6 +94,16 @@ def worker_init():
     global _SF, _TABLE0
     import selfies
     _SF = selfies
+    # the strings are explored in a library that has a *history*: every piece was first decoded under a very
+    # relaxed table (filling the symbol and capacity caches), then the default table was installed
+    _SF.set_semantic_constraints({"?": 12})
+    for pcs in ALPH.values():
+        for x in pcs:
+            for flags in ((False,), (True,)):
+                try:
+                    _SF.decoder("[C]" + x, compatible=flags[0])
+                except Exception:
+                    pass
     _SF.set_semantic_constraints("default")
     _TABLE0 = _SF.get_semantic_constraints()
     signal.signal(signal.SIGALRM, _alarm)
